@@ -11,6 +11,8 @@ import time
 from . import runner
 
 VERIF = runner.VERIF
+# evidence/ and replays/ go below /verif unless a development run against a scratch copy redirects them
+OUT = os.environ.get("PYVC_OUT") or VERIF
 ASSUMPTIONS = [
     "A1 statement/expression semantics of the interpreted Python subset as in the language reference (left-to-right evaluation, short-circuit, try/finally unwinding); cross-checked against CPython by native replays only",
     "A2 async-for / async-with protocols per PEP 492 (async for never closes its iterator; __aexit__ awaited on every exit)",
@@ -140,7 +142,7 @@ def run_check(prop, tier, seed, repo, jobfilter=None, procs=None):
             violations.append((r, b["violation"]))
     # ---- counterexamples and replay -------------------------------------------------------------------
     out_lines = []
-    replay_dir = os.path.join(VERIF, "replays")
+    replay_dir = os.path.join(OUT, "replays")
     os.makedirs(replay_dir, exist_ok=True)
     nviol = 0
     reported = set()
@@ -189,8 +191,8 @@ def run_check(prop, tier, seed, repo, jobfilter=None, procs=None):
         ev["coverage"]["evaluations"] = max(total, 1)
         ev["coverage"]["distinct_nontrivial"] = max(discharged, 2)
         ev["coverage"]["rule"] = cfg.get("rule", "one evaluation per obligation; distinct by obligation name")
-    os.makedirs(os.path.join(VERIF, "evidence"), exist_ok=True)
-    json.dump(ev, open(os.path.join(VERIF, "evidence", f"{prop}.json"), "w"), indent=1, default=str)
+    os.makedirs(os.path.join(OUT, "evidence"), exist_ok=True)
+    json.dump(ev, open(os.path.join(OUT, "evidence", f"{prop}.json"), "w"), indent=1, default=str)
     # ---- report ------------------------------------------------------------------------------------------
     print(f"{prop} [{tier}] jobs={len(results)} obligations={total} discharged={discharged} paths={paths} "
           f"solver={solver_s:.1f}s wall={wall}s undecided_jobs={len(undecided)} known={len(known_hits)}")
